@@ -9,6 +9,10 @@ CONSTANTS
   RxDeltas = {0, 1, 3}
   Delays <- DelaysFull
   CtrlDelays = {5}
+  Sec = 1
+  TsGrid = 1
+  TickUs = 1000000
+  BaseTicks = 1640995200
   IndexMode = "pos"
   Record = TRUE
 INVARIANTS EmitScn
